@@ -471,7 +471,19 @@ def d_get(ex, st, o, args, kwargs, node):
     d = st.get(o).d
     k = st.get(args[0])
     if not is_conc(k):
-        raise Unsupported("dict.get with symbolic key")
+        # a symbolic text key against literal keys: the value under the key it equals, else the default
+        dflt = st.get(args[1]) if len(args) > 1 else None
+        keys = list(d)
+        if not keys or not all(isinstance(x, str) for x in keys) or not is_z3(k):
+            raise Unsupported("dict.get with symbolic key")
+        vals = [st.get(d[x]) for x in keys]
+        hit = z3.Or([z3eq(k, x) for x in keys])
+        val = vals[-1]
+        for x, v in list(zip(keys, vals))[-2::-1]:
+            val = merge_val(z3eq(k, x), v, val)
+        if dflt is None:
+            return OptV(z3.Not(hit), val)
+        return merge_val(hit, val, dflt)
     return d.get(k, args[1] if len(args) > 1 else None)
 
 
